@@ -105,6 +105,14 @@ static std::vector<std::string> cpu_gen(const GenArgs &ga) {
   int e = (int)r.below(10);
   auto name = [&]() -> std::string {
     int k = (int)r.below(10);
+    if (k < 8 && r.chance(1, 8)) {
+      // the same name in another spelling is another name (or, if a library chose to fold case, still not a
+      // licence to use a backend that cannot run here)
+      std::string n = kTargets[k];
+      int how = (int)r.below(3);
+      for (size_t i = 0; i < n.size(); i++) if (how == 0 || (how == 1 && i == 0) || (how == 2 && (i & 1))) n[i] = (char)toupper((unsigned char)n[i]);
+      return n;
+    }
     if (k < 8) return r.chance(1, 12) ? "xtgt0" : kTargets[k];   // xtgt0: a backend the application registered (never executable)
     return k == 8 ? (r.chance(1, 2) ? "nosuchtarget" : "EMPTY") : "SSE";   // EMPTY: the variable is set to the empty string
   };
